@@ -3,6 +3,7 @@ import Bebop.Text.Parser
 import Bebop.Text.Grammar
 import Bebop.Text.Dump
 import Bebop.Text.Validate
+import Bebop.Text.Imports
 import Driver.Gen
 
 open Bebop.Text
@@ -33,6 +34,17 @@ def showRead : ReadResult → String
   | .declined => "declined"
 
 def kindName (k : TK) : String := (reprStr k).replace "Bebop.Text.TK." ""
+
+partial def parseFS : Nat → List String → Option (FS × List String)
+  | 0, r => some ([], r)
+  | n+1, pkg :: m :: r => do
+    let m ← m.toNat?
+    let ts ← (r.take m).mapM String.toNat?
+    if (r.take m).length != m then none
+    let (rest, r') ← parseFS n (r.drop m)
+    let p : Option Nat := if pkg == "-1" then none else pkg.toNat?
+    pure ({ pkg := p, imports := ts } :: rest, r')
+  | _, _ => none
 
 def step (toks : List String) : String :=
   match toks with
@@ -67,6 +79,17 @@ def step (toks : List String) : String :=
       | some src => "ok " ++ hexStr (print (Gen.layoutOf seed) src) ++ " " ++ clsName
       | none => "na " ++ clsName
     | _, _, _ => "bad-op geninvalid"
+  | "imports" :: sep :: n :: rest =>
+    match n.toNat?.bind (fun n => parseFS n rest) with
+    | some (fs, []) =>
+      match resolveImports fs (sep == "1") with
+      | .ok files => "ok " ++ String.intercalate " " (files.map toString)
+      | .err .notFound => "err notfound"
+      | .err .cycle => "err cycle"
+      | .err .noPkg => "err nopkg"
+      | .err .validate => "err validate"
+      | .fuel => "fuel"
+    | _ => "bad-op imports"
   | ["validate", h] =>
     match unhex h with
     | some bs =>
